@@ -730,12 +730,13 @@ class RealTerms:
     """`repo`: the repository the user subs are registered in (None: the library's default repository).  `decoy`: the same op
     is ALSO registered in the default repository, with another body - the custom repository's definition is the program's."""
 
-    def __init__(self, subs, repo=None, decoy=False):
+    def __init__(self, subs, repo=None, decoy=False, transform=None):
         from quri_parts.qsub.namespace import NameSpace
 
         self.subs = subs
         self.repo = repo
         self.decoy = decoy
+        self.transform = transform  # a Sub -> Sub transformation applied to every user sub before it is registered
         self.cache = {}
         _uniq[0] += 1
         self.ns = NameSpace(f"c19w{_uniq[0]}")
@@ -766,7 +767,8 @@ class RealTerms:
                 elif ph:
                     b.add_phase(ph * math.pi / 4)
                 o = Op(Ident(self.ns, f"W{t[1]}"), nargs)
-                (self.repo if self.repo is not None else default_repository()).register_sub(o, b.build())
+                built = b.build() if self.transform is None else self.transform(b.build())
+                (self.repo if self.repo is not None else default_repository()).register_sub(o, built)
                 if self.repo is not None and self.decoy:
                     d = SubBuilder(nargs)
                     d.add_op(std.X, (d.qubits[0],))
@@ -783,7 +785,7 @@ class RealTerms:
         return std.MultiControlled(self.op(t[1]), t[2], t[3])
 
 
-def real_unitary(term, subs, repo=None, decoy=False, entry="compile_sub"):
+def real_unitary(term, subs, repo=None, decoy=False, entry="compile_sub", transform=None):
     """compile + evaluate with the real code; returns (matrix on the term's qubits, leakage) or raises"""
     import numpy as np
 
@@ -795,7 +797,7 @@ def real_unitary(term, subs, repo=None, decoy=False, entry="compile_sub"):
     from quri_parts.qsub.primitive import AllBasicSet
     from quri_parts.qsub.sub import SubBuilder
 
-    rt = RealTerms(subs, repo, decoy)
+    rt = RealTerms(subs, repo, decoy, transform)
     a = QD.arity(term, subs)
     b = SubBuilder(a)
     b.add_op(rt.op(term), b.qubits)
@@ -1230,6 +1232,141 @@ def custom_repo_wrappers(ctx: Ctx, n_cases: int):
                     + (", no specific Inverse(Controlled) resolver" if drop else "") + f", entry {entry}): {r}; the default repository gets it right",
                     {"term": QD.show(t, sb), "custom_term": t, "custom_subs": {str(k): v for k, v in sb.items()}, "mode": mode,
                      "drop_specific": drop, "entry": entry})
+    ctx.evaluations += n_eval
+
+
+def sub_transformers_check(ctx: Ctx, n_cases: int):
+    """every Sub -> Sub transformation of the public API (trans/: SeparateTranspiler subclasses incl.
+    SeparateQURIPartsTranspiler, SequentialTranspiler) applied DIRECTLY to a Sub with a non-zero tracked phase, argument and
+    auxiliary registers and auxiliary qubits: (i) field by field - only `operations` may change, and in it only the ops the
+    transpiler targets; the argument is not mutated; (ii) by meaning - the transformed Sub registered as an op's definition
+    and wrapped in Controlled / MultiControlled is the controlled version of the ORIGINAL definition's unitary (dense
+    oracle, phase-sensitive).  (ii) uses chunk transformations that are exact including the global phase (none, SWAP -> 3 CNOT,
+    identity) - quri-parts circuit transpilers in general, and Phase -> RZ in convert_to_qp, only promise equality up to a
+    global phase, which a direct use under a control would expose without the Sub transformer being at fault."""
+    import copy
+    import math
+
+    import quri_parts.circuit.transpile as qt
+    from oracle import qsub_dense as QD
+    from quri_parts.qsub.lib import std
+    from quri_parts.qsub.namespace import NameSpace
+    from quri_parts.qsub.op import Ident, Op
+    from quri_parts.qsub.sub import SubBuilder
+    from quri_parts.qsub.trans import SequentialTranspiler
+    from quri_parts.qsub.trans.qp_trans import SeparateQURIPartsTranspiler
+    from quri_parts.qsub.trans.transpiler import SeparateTranspiler
+
+    rng = ctx.rng
+
+    class IdentityChunks(SeparateTranspiler):
+        """a user-defined SeparateTranspiler: chunks of a few std ops, handed back unchanged"""
+
+        @property
+        def target_ops(self):
+            return {std.CNOT.base_id, std.T.base_id, std.X.base_id, std.RZ.base_id, std.SWAP.base_id}
+
+        def transpile_chunk(self, ops):
+            return list(ops)
+
+    def exact_transformers():
+        qp0 = SeparateQURIPartsTranspiler([])
+        qp1 = SeparateQURIPartsTranspiler((qt.SWAP2CNOTTranspiler(),))
+        ident = IdentityChunks()
+        return [("SeparateQURIPartsTranspiler([])", qp0, qp0.target_ops), ("SeparateQURIPartsTranspiler((SWAP2CNOT,))", qp1, qp1.target_ops),
+                ("user-defined SeparateTranspiler (identity chunks)", ident, ident.target_ops),
+                ("SequentialTranspiler([identity chunks, SeparateQURIPartsTranspiler([SWAP2CNOT])])", SequentialTranspiler([ident, qp1]), qp1.target_ops),
+                ("SequentialTranspiler(())", SequentialTranspiler(()), set())]
+
+    def any_transformers():
+        trs = [t() for t in rng.sample([qt.T2RZTranspiler, qt.S2RZTranspiler, qt.CZ2CNOTHTranspiler, qt.H2RZSqrtXTranspiler,
+                                        qt.SWAP2CNOTTranspiler, qt.TOFFOLI2HTTdagCNOTTranspiler, qt.RX2RZSqrtXTranspiler], rng.randint(1, 3))]
+        qp = SeparateQURIPartsTranspiler(trs)
+        return [("SeparateQURIPartsTranspiler([" + ", ".join(type(t).__name__ for t in trs) + "])", qp, qp.target_ops)]
+
+    # ---- (i) field by field
+    for ci in range(n_cases):
+        _uniq[0] += 1
+        ns = NameSpace(f"c19t{_uniq[0]}")
+        nq, nr = rng.randint(1, 3), rng.randint(0, 2)
+        b = SubBuilder(nq, nr)
+        qn = list(b.qubits) + list(b.add_aux_qubits(rng.randint(0, 2)))
+        rn = list(b.registers) + list(b.add_aux_registers(rng.randint(0, 2)))
+        other = [Op(Ident(ns, "U"), 1), Op(Ident(ns, "M"), 1, min(1, len(rn)), unitary=False), std.Controlled(std.X)]
+        desc = []
+        for _ in range(rng.randint(1, 7)):
+            if rng.random() < 0.3:
+                o = rng.choice([x for x in other if x.qubit_count <= len(qn)])
+            else:
+                name = rng.choice(["H", "X", "T", "S", "CNOT", "CZ", "SWAP", "RZ", "RX", "Toffoli", "Identity"])
+                o = getattr(std, name)
+                o = o(rng.uniform(-7, 7)) if name in ("RZ", "RX") else o
+            if o.qubit_count > len(qn):
+                continue
+            qs = rng.sample(range(len(qn)), o.qubit_count)
+            rs = rng.sample(range(len(rn)), o.reg_count)
+            b.add_op(o, tuple(qn[q] for q in qs), tuple(rn[r] for r in rs))
+            desc.append(f"{o.id.local_name}@{qs}" + (f"r{rs}" if rs else ""))
+        ph = rng.choice([1, 2, 3, 4, 6, 7, -1]) * math.pi / 4 if rng.random() < 0.8 else rng.uniform(0.1, 6.0)
+        b.add_phase(ph)
+        sub = b.build()
+        before = copy.deepcopy(sub)
+        for name, tr, targets in exact_transformers() + any_transformers():
+            inp = {"transformer": name, "sub": {"qubits": nq, "registers": nr, "aux_qubits": len(sub.aux_qubits),
+                                                "aux_registers": len(sub.aux_registers), "phase": sub.phase, "operations": desc}}
+            ctx.traces += 1
+            try:
+                out = tr(sub)
+            except Exception as e:  # noqa: BLE001
+                ctx.witness("sub-transformer-field", f"{name} applied to a Sub raises {type(e).__name__}: {str(e)[:100]}", inp)
+                continue
+            for f in ("qubits", "registers", "aux_qubits", "aux_registers", "phase"):
+                try:
+                    a, bb = getattr(out, f), getattr(sub, f)
+                    same = (a == bb) if f == "phase" else (tuple(a) == tuple(bb))
+                except Exception as e:  # noqa: BLE001
+                    same, a, bb = False, f"{type(e).__name__}", None
+                if not same:
+                    ctx.witness("sub-transformer-field", f"{name}: the transformed Sub has another `{f}` than its source "
+                                f"({a!r} instead of {bb!r})", inp)
+            keep = [(o, tuple(q), tuple(r)) for o, q, r in sub.operations if o.base_id not in targets]
+            kept = [(o, tuple(q), tuple(r)) for o, q, r in out.operations if o.base_id not in targets]
+            if keep != kept:
+                ctx.witness("sub-transformer-field", f"{name}: operations the transpiler does not target were changed, dropped or "
+                            "reordered", inp)
+            if sub != before:
+                ctx.witness("sub-transformer-field", f"{name} mutates the Sub it is applied to", inp)
+        ctx.case(("sub-fields", tuple(desc), round(ph, 6)), True, None)
+    # ---- (ii) by meaning, under a control
+    n_eval = 0
+    for ci in range(max(8, n_cases // 2)):
+        nargs = rng.randint(1, 2)
+        ops = []
+        for _ in range(rng.randint(1, 4)):
+            if nargs >= 2 and rng.random() < 0.45:
+                name, ar, k = rng.choice(["CNOT", "CZ", "SWAP", "SWAP"]), 2, None
+            else:
+                name = rng.choice(["X", "Y", "Z", "S", "Sdag", "T", "Tdag", "RY", "RZ"])
+                ar, k = 1, (gen_angle_k(rng) if name in QD.PARAM else None)
+            ops.append((("prim", name, k), tuple(rng.sample(range(nargs), ar))))
+        subs = {0: (nargs, 0, rng.choice([1, 2, 3, 4, 6, 7, -1, -2, 5]), ops)}
+        t = rng.choice([("ctl", ("user", 0)), ("ctl", ("user", 0)), ("mctl", ("user", 0), 2, rng.randrange(4)), ("ctl", ("ctl", ("user", 0))),
+                        ("inv", ("ctl", ("user", 0)))])
+        if t[0] == "inv":
+            subs[0] = subs[0][:2] + (0,) + subs[0][3:]  # Inverse drops the tracked phase (known finding): keep that apart
+            t = ("ctl", ("user", 0))
+        for name, tr, _ in exact_transformers():
+            r = check_term(ctx, t, subs, transform=tr)
+            n_eval += 1
+            ctx.count("sub_transformer", "ok" if r is None else "skip" if r == "skip" else "MISMATCH")
+            if r in (None, "skip"):
+                continue
+            r0 = check_term(ctx, t, subs)
+            if r0 not in (None, "skip"):
+                ctx.count("wrapper_keys", report_bad(ctx, t, subs, r0))  # wrong without any transformer as well
+                break
+            ctx.witness("sub-transformer-meaning", f"{QD.show(t, subs)} where the sub was first passed through {name}: {r}; without the "
+                        "transformer the construction is right", {"term": QD.show(t, subs), "transformer": name})
     ctx.evaluations += n_eval
 
 
@@ -2677,6 +2814,8 @@ def run(ctx: Ctx, replay=None) -> int:
             transpiler_validate(ctx, ctx.n(60, 1000) * mult)
             with ctx.timed("custom_repo"):
                 custom_repo_wrappers(ctx, ctx.n(150, 3000) * mult)
+            with ctx.timed("sub_transformers"):
+                sub_transformers_check(ctx, ctx.n(80, 1500) * mult)
             with ctx.timed("rich_programs"):
                 rich_programs(ctx, ctx.n(200, 3000) * mult)
             if broken:
